@@ -142,9 +142,54 @@ fn gen_c05_big(seed: u64, idx: u64) -> Scenario {
     }
 }
 
+/// Worker counts far above the core count (129 .. 1024, the library's clamp): twice as many frame
+/// buffers circulate, so buffer ids, queue capacities and token counts pass 255/256 and 512; the
+/// stream is long enough for every buffer to be recycled at least once.
+fn gen_c05_manyworkers(seed: u64, idx: u64) -> Scenario {
+    let mut rng = Rng::for_case(seed, "C05.manyworkers", idx);
+    let w = [129usize, 160, 255, 256, 257, 300, 513, 1024][(idx % 8) as usize];
+    let block = 32usize;
+    let frames = 2 * w + 40 + rng.usize_below(3 * w);
+    let len = frames * block + rng.usize_below(block);
+    let bps = *rng.pick(&[8usize, 16]);
+    // cheap frames of distinct content (a lost, duplicated or re-ordered frame changes the bytes)
+    let full = gen::smax(bps) as i64;
+    let mut samples = vec![0i32; len];
+    for (b, chunk) in samples.chunks_mut(block).enumerate() {
+        let v = rng.range(-full, full) as i32;
+        for (t, x) in chunk.iter_mut().enumerate() {
+            *x = if b % 7 == 3 { (v / 2) + ((t * 13) % 17) as i32 - 8 } else { v };
+        }
+    }
+    let mut cfg = config::Encoder::default();
+    cfg.multithread = true;
+    cfg.subframe_coding.use_lpc = false;
+    cfg.block_size = block;
+    let via_env = idx % 3 == 1;
+    Scenario {
+        audio: Arc::new(Audio { channels: 1, bps, rate: 8000, samples, recipe: format!("{frames} cheap distinct frames for {w} workers") }),
+        cfg,
+        block,
+        workers: if via_env { None } else { Some(w) },
+        env: if via_env { Some(w.to_string()) } else { None },
+        policy: if idx % 2 == 0 { Policy::None } else { Policy::Yield },
+        faults: vec![],
+        mode: if rng.flip() { FillMode::Int } else { FillMode::Bytes },
+        hint: rng.flip(),
+        label: format!("manyworkers#{idx} W={w}"),
+        short_reads: 0,
+        bare_eof: false,
+        empty_fill_every: 0,
+        err_flavour: 0,
+    }
+}
+
 pub fn gen_c05(seed: u64, sub: &str, idx: u64) -> Scenario {
     if sub == "long" {
         return gen_c05_long(seed, idx);
+    }
+    if sub == "manyworkers" {
+        return gen_c05_manyworkers(seed, idx);
     }
     if sub == "big" {
         return gen_c05_big(seed, idx);
@@ -571,11 +616,12 @@ pub fn run_c05(ctx: &Ctx) -> i32 {
     supervise_sub(ctx, "env", ctx.tier.pick(104, 1300), &agg);
     supervise_sub(ctx, "long", ctx.tier.pick(2, 32), &agg);
     supervise_sub(ctx, "big", ctx.tier.pick(12, 200), &agg);
+    supervise_sub(ctx, "manyworkers", ctx.tier.pick(8, 96), &agg);
     let out = std::mem::take(&mut agg.lock().unwrap().out);
     let ooo = out.stats.get("runs_with_out_of_order_completion").copied().unwrap_or(0);
     let fin = Finish {
         level: "exploration",
-        rule: "every scenario (generated input with alternating cheap/expensive blocks x configuration x W in {1,2,3,4,8,16,32} or FLACENC_WORKERS in 17 strings (incl. 0, unparsable, usize::MAX, 2^63, 2^32, 1025) x 8 schedule policies injected at the hook's scheduling points; plus 'long' scenarios of more than 65536 frames and 'big' scenarios with blocks of 64-768 KiB raw from a source without a length hint) runs in a supervised child, one multi-thread call at a time: bytes(single) == bytes(multi) == bytes(frame-by-frame assembly) == bytes(multi, repeated); the totally ordered event log is checked offline for T1 buffer ownership alternation, T2 frame numbers 0,1,2.. each encoded and pushed exactly once, T3 stop tokens, T4 hasher FIFO/no-loss, T5 all helpers exited before return; distinct = distinct interleavings (hash of the log projected to (role, site))",
+        rule: "every scenario (generated input with alternating cheap/expensive blocks x configuration x W in {1,2,3,4,8,16,32} or FLACENC_WORKERS in 17 strings (incl. 0, unparsable, usize::MAX, 2^63, 2^32, 1025) x 8 schedule policies injected at the hook's scheduling points; plus 'long' scenarios of more than 65536 frames 'big' scenarios with blocks of 64-768 KiB raw from a source without a length hint, and 'manyworkers' scenarios with 129..1024 workers (from the configuration or the environment) and enough frames for every buffer to be recycled) runs in a supervised child, one multi-thread call at a time: bytes(single) == bytes(multi) == bytes(frame-by-frame assembly) == bytes(multi, repeated); the totally ordered event log is checked offline for T1 buffer ownership alternation, T2 frame numbers 0,1,2.. each encoded and pushed exactly once, T3 stop tokens, T4 hasher FIFO/no-loss, T5 all helpers exited before return; distinct = distinct interleavings (hash of the log projected to (role, site))",
         assumptions: vec!["schedules are sampled by real threads + injected delays at the library's own suspension points; not all interleavings are visited".into(), "deadlock is decided by /proc state (all tasks in futex wait, no CPU time or context switch for 2 s), never by a deadline".into()],
         exhaustive: None,
         floors: vec![("runs in which a frame completed before a lower-numbered one".into(), ooo, 10)],
